@@ -20,7 +20,7 @@ cp "$out/zz_demo_test.go" "$scratch/with/$demodir/" 2>/dev/null; cp "$out/zz_dem
 demo_with=pass; ( cd "$scratch/with/$demodir" && go test -vet=off -count=1 -run TestZZDemo . ) > "$scratch/dw.txt" 2>&1 || demo_with=fail
 demo_without=pass; ( cd "$scratch/without/$demodir" && go test -vet=off -count=1 -run TestZZDemo . ) > "$scratch/dwo.txt" 2>&1 || demo_without=fail
 rm -f "$scratch/with/$demodir/zz_demo_test.go"
-/verif/bin/govc -repo "$scratch/with" check -prop "$prop" -tier quick -evidence "$scratch/ev.json" -replays "$scratch/replays" -known /verif/known_findings.json > "$scratch/check.txt" 2>&1
+/verif/selftest/check_on.sh "$scratch/with" "$prop" quick "$scratch/out" > "$scratch/check.txt" 2>&1
 rc=$?
 detected=no; [ $rc -eq 1 ] && grep -q '^VIOLATION' "$scratch/check.txt" && detected=yes
 grep -E '^failed obligation|^VIOLATION|^govc:' "$scratch/check.txt" | cut -c1-300 > "$out/check_output.txt"
